@@ -975,7 +975,8 @@ ENUM_PARAMS = {
     "DistBeta": [{"alpha1": 0.5, "alpha2": 0.5}, {"alpha1": 1.0, "alpha2": 1.0}, {"alpha1": 2.0, "alpha2": 3.0},
                  {"alpha1": 0.5, "alpha2": 2}],
     "DistBinomial": [{"n": 1, "p": 0.0}, {"n": 10, "p": 0.5}, {"n": 7, "p": 1.0}],
-    "DistConstant": [{"constant": 0}, {"constant": 2.5}, {"constant": -0.0}],
+    "DistConstant": [{"constant": 0}, {"constant": 2.5}, {"constant": -0.0},
+                     {"constant": 2 ** 53 + 1}, {"constant": 10 ** 30 + 7}],      # ints that no double represents
     "DistDiscreteUniform": [{"lo": 0, "hi": 1}, {"lo": -500, "hi": 500}, {"lo": 1, "hi": 6}],
     "DistErlang": [{"scale": 1.0, "k": 1}, {"scale": 2.0, "k": 9}, {"scale": 0.5, "k": 10}, {"scale": 3, "k": 2}],
     "DistExponential": [{"mean": 1.0}, {"mean": 1e-3}, {"mean": 1000}],
@@ -1001,8 +1002,12 @@ ENUM_PARAMS = {
                      {"alpha1": 2.0, "alpha2": 3.0, "beta": 0.5}],
     "DistPoisson": [{"rate": 0.5}, {"rate": 4.0}, {"rate": 30}],
     "DistTriangular": [{"lo": 0.0, "mode": 0.0, "hi": 1.0}, {"lo": 0.0, "mode": 1.0, "hi": 1.0},
-                       {"lo": -1.0, "mode": 0.5, "hi": 2.0}, {"lo": 1, "mode": 2, "hi": 4}],
-    "DistUniform": [{"lo": 0.0, "hi": 1.0}, {"lo": -1000.0, "hi": 1e-3}, {"lo": 1, "hi": 3}],
+                       {"lo": -1.0, "mode": 0.5, "hi": 2.0}, {"lo": 1, "mode": 2, "hi": 4},
+                       {"lo": 1.7e9, "mode": 1.7e9 + 0.25, "hi": 1.7e9 + 0.5}, {"lo": 1.0, "mode": 1.0, "hi": 1.0000000001}],
+    "DistUniform": [{"lo": 0.0, "hi": 1.0}, {"lo": -1000.0, "hi": 1e-3}, {"lo": 1, "hi": 3},
+                    # valid intervals that are narrow compared with the magnitude of their bounds
+                    {"lo": 1.7e9, "hi": 1.7e9 + 0.5}, {"lo": 1.0, "hi": 1.0000000001},
+                    {"lo": 1e15, "hi": 1e15 + 1.0}, {"lo": 3.0, "hi": math.nextafter(3.0, 4.0)}],
     "DistWeibull": [{"alpha": 1.0, "beta": 1.0}, {"alpha": 0.5, "beta": 2.0}, {"alpha": 3, "beta": 1e-3}],
 }
 
